@@ -185,14 +185,36 @@ def parse_wrapper(src, struct):
         res["oog"].append("%s: decouple_evaluations not found" % struct)
     return res
 
-def counter_fields(src, struct):
-    body = struct_body(src, struct)
+def counter_fields(src, struct, oog):
+    """every member of the counter struct is accounted for: `unsigned NAME{};`, the nested timer struct, `void reset() { *this = {}; }`"""
+    body = struct_body(re.sub(r"/\*.*?\*/", " ", src, flags=re.S), struct)
     if body is None:
         return []
-    body = body[:body.index("struct ", 1)] if "struct " in body[1:] else body
-    return re.findall(r"unsigned\s+(%s)\s*\{\s*\}\s*;" % ID, body)
+    fields, timers = [], None
+    chunks = member_chunks(body)
+    for k, c in enumerate(chunks):
+        if re.fullmatch(r"struct \w+ \{.*\}", c):
+            timers = re.findall(r"std::chrono::nanoseconds (%s) ?\{" % ID, c)
+        if c == "time;" and k and re.fullmatch(r"struct \w+ \{ ?(std::chrono::nanoseconds %s ?\{ ?\} ?; ?)+\}" % ID, chunks[k - 1]):
+            continue
+        if re.fullmatch(r"struct \w+ \{.*\}", c) and chunks[k + 1:k + 2] == ["time;"]:
+            if not re.fullmatch(r"struct \w+ \{ ?(std::chrono::nanoseconds %s ?\{ ?\} ?; ?)+\}" % ID, c):
+                oog.append("%s: timer struct '%s'" % (struct, c[:60]))
+            continue
+        m = re.fullmatch(r"unsigned (%s) ?\{ ?\} ?;" % ID, c)
+        if m:
+            if m.group(1) in fields:
+                oog.append("%s: counter %s declared twice" % (struct, m.group(1)))
+            fields.append(m.group(1))
+        elif not (re.fullmatch(r"struct \w+ \{ ?(std::chrono::nanoseconds %s ?\{ ?\} ?; ?)+\} time ?;" % ID, c) or
+                  re.fullmatch(r"void reset\(\) \{ ?\*this = \{ ?\} ?; ?\}", c)):
+            oog.append("%s: member '%s' is not a counter" % (struct, c[:60]))
+    if timers != fields:          # the timer struct is not translated by itself: it must list the same names as the counters, in the same order
+        oog.append("%s: the timers %s are not the counters %s" % (struct, timers, fields))
+    return fields
 
-def parse_defaults(src):
+def parse_defaults(src, oog):
+    """default_* of the vtable: the body is exactly one of the shapes below (anything else with a throw -> out_of_grammar)"""
     out = []
     for m in re.finditer(r"ProblemVTable<Conf>::default_(%s)\(" % ID, src):
         name = m.group(1)
@@ -200,15 +222,28 @@ def parse_defaults(src):
         # skip a trailing return type
         body = src[k + 1:balanced(src, k) - 1]
         t = re.search(r'throw\s+not_implemented_error\(\s*"([^"]*)"\s*\)', body)
-        stripped = re.sub(r"/\*.*?\*/|//[^\n]*", "", body, flags=re.S).strip()
+        stripped = re.sub(r"\s+", " ", re.sub(r"/\*.*?\*/|//[^\n]*", "", body, flags=re.S)).strip()
         if t:
             kind = "DThrows" if stripped.startswith("throw") else "DConditional"
+            thr = r'throw not_implemented_error\( ?"[^"]*" ?\) ?;'
+            if not (re.fullmatch(thr, stripped) or
+                    re.fullmatch(r"if \(vtable\.m != 0\) " + thr, stripped) or
+                    re.fullmatch(r"if \(vtable\.m == 0 && vtable\.(%s) != (?:ProblemVTable<Conf>::)?default_\1\) return vtable\.\1\([^;{}]*\); " % ID + thr, stripped)):
+                oog.append("default_%s: body '%s' is not one of the known throwing shapes" % (name, stripped[:80]))
             out.append((name, kind, t.group(1)))
         else:
             out.append((name, "DComposes", None))
     return out
 
-def c_signatures(hsrc):
+DL_DATA_MEMBERS = {
+    "alpaqa_problem_functions_t": ["alpaqa_length_t n ALPAQA_DEFAULT(0);", "alpaqa_length_t m ALPAQA_DEFAULT(0);", "const char *name ALPAQA_DEFAULT(nullptr);"],
+    "alpaqa_control_problem_functions_t": ["alpaqa_length_t N ALPAQA_DEFAULT(0), nx ALPAQA_DEFAULT(0), nu ALPAQA_DEFAULT(0), nh ALPAQA_DEFAULT(0), "
+                                           "nh_N ALPAQA_DEFAULT(0), nc ALPAQA_DEFAULT(0), nc_N ALPAQA_DEFAULT(0);"],
+}
+
+
+def c_signatures(hsrc, oog):
+    """function tables of dl-problem.h; every member of the two structs is accounted for (function pointer or one of the known data members)"""
     sigs = {}
     for sname in ("alpaqa_problem_functions_t", "alpaqa_control_problem_functions_t"):
         m = re.search(r"ALPAQA_BEGIN_STRUCT\(%s\)\s*\{" % sname, hsrc)
@@ -216,12 +251,22 @@ def c_signatures(hsrc):
             continue
         i = m.end() - 1
         body = hsrc[i:balanced(hsrc, i)]
-        body = re.sub(r"///[^\n]*|//[^\n]*", "", body)
+        body = re.sub(r"/\*.*?\*/", " ", re.sub(r"///[^\n]*|//[^\n]*", "", body), flags=re.S)
         d = {}
-        for mm in re.finditer(r"\(\*\s*(%s)\s*\)\s*\(" % ID, body):
-            j = balanced(body, mm.end() - 1, "(", ")")
-            ps = param_names(body[mm.end():j - 1])
-            d[mm.group(1)] = ps[1:] if ps and ps[0] == "instance" else ps
+        chunks = member_chunks(body)
+        # the data members come first, exactly these
+        want = DL_DATA_MEMBERS[sname]
+        if [re.sub(r"\s+", "", c) for c in chunks[:len(want)]] != [re.sub(r"\s+", "", w) for w in want]:
+            oog.append("%s: does not start with the known data members %s" % (sname, want))
+        for c in chunks[len(want):]:
+            mm = re.fullmatch(r"[\w ]+?\*? ?\(\* ?(%s) ?\) ?\(([^()]*)\)( ALPAQA_DEFAULT\(nullptr\))? ?;" % ID, c)
+            if mm:
+                if mm.group(1) in d:
+                    oog.append("%s: member %s declared twice" % (sname, mm.group(1)))
+                ps = param_names(mm.group(2))
+                d[mm.group(1)] = ps[1:] if ps and ps[0] == "instance" else ps
+            else:
+                oog.append("%s: member '%s' is not a function pointer" % (sname, c[:60]))
         sigs[sname] = d
     return sigs
 
@@ -323,14 +368,23 @@ def generate(repo, verif):
     ocp_src = safe(os.path.join(inc, "problem/ocproblem.hpp"))
     nlp = parse_wrapper(nlp_src, "ProblemWithCounters")
     ocp = parse_wrapper(ocp_src, "ControlProblemWithCounters")
-    nlp_fields = counter_fields(safe(os.path.join(inc, "problem/problem-counters.hpp")), "EvalCounter")
-    ocp_fields = counter_fields(safe(os.path.join(inc, "problem/ocproblem-counters.hpp")), "OCPEvalCounter")
-    dfl = parse_defaults(safe(os.path.join(inc, "implementation/problem/type-erased-problem.tpp")))
-    csig = c_signatures(safe(os.path.join(repo, "src/interop/dl-api/include/alpaqa/dl/dl-problem.h")))
+    nlp_fields = counter_fields(safe(os.path.join(inc, "problem/problem-counters.hpp")), "EvalCounter", status["out_of_grammar"])
+    ocp_fields = counter_fields(safe(os.path.join(inc, "problem/ocproblem-counters.hpp")), "OCPEvalCounter", status["out_of_grammar"])
+    dfl = parse_defaults(safe(os.path.join(inc, "implementation/problem/type-erased-problem.tpp")), status["out_of_grammar"])
+    csig = c_signatures(safe(os.path.join(repo, "src/interop/dl-api/include/alpaqa/dl/dl-problem.h")), status["out_of_grammar"])
     dlcpp = safe(os.path.join(repo, "src/interop/dl/src/dl-problem.cpp"))
     dl_fw, dl_pv, dl_fb, oog1 = parse_dl(dlcpp, "DLProblem", csig.get("alpaqa_problem_functions_t", {}))
     dlc_fw, dlc_pv, _, oog2 = parse_dl(dlcpp, "DLControlProblem", csig.get("alpaqa_control_problem_functions_t", {}))
     status["out_of_grammar"] += nlp["oog"] + ocp["oog"] + oog1 + oog2
+    # every member of the C function tables is referenced by the C++ side (an entry nobody reads is not a forwarder of anything)
+    referenced = set(re.findall(r"functions\s*->\s*(%s)" % ID, dlcpp))
+    for sname, d in csig.items():
+        for nm in d:
+            if nm not in referenced:
+                status["out_of_grammar"].append("%s: member %s is never read by dl-problem.cpp" % (sname, nm))
+    declared = set(nm for d in csig.values() for nm in d) | set(re.findall(r"\b(\w+) ALPAQA_DEFAULT", " ".join(w for ws in DL_DATA_MEMBERS.values() for w in ws)))
+    for nm in sorted(referenced - declared):
+        status["out_of_grammar"].append("dl-problem.cpp reads functions->%s, which is not a member of the function tables" % nm)
     for nm, w in (("ProblemWithCounters", nlp), ("ControlProblemWithCounters", ocp)):
         if not w["found"] or not w["methods"]:
             status["out_of_grammar"].append("%s: struct or members not found" % nm)
@@ -368,7 +422,7 @@ def generate(repo, verif):
     L.append("Definition dlc_forwards : list dlfwd :=\n  %s.\n" % cl(["\n   mkDl %s %s %s %s" % (cs(n), cs(c), cl([cs(a) for a in a_]), cl([cs(p) for p in p_])) for n, c, a_, p_ in dlc_fw]))
     L.append("Definition dlc_provides : list dlprov :=\n  %s.\n" % cl(["\n   mkDlProv %s %s" % (cs(n), cs(t)) for n, t in dlc_pv]))
     out = "\n".join(L)
-    gen = os.path.join(verif, "coq", "gen")
+    gen = (os.environ.get("VERIF_GEN_OUT") or os.path.join(verif, "coq", "gen"))
     os.makedirs(gen, exist_ok=True)
     p = os.path.join(gen, "Wrappers.v")
     old = open(p, encoding="utf-8").read() if os.path.exists(p) else None
